@@ -82,9 +82,36 @@ def departure_script(rng):
     return cfg, ops
 
 
+def callback_script(rng):
+    """Emits with callbacks (some of them raise) to one client, each
+    acknowledged, some acknowledgements repeated."""
+    served = NAMESPACES[:rng.choice([1, 2])]
+    cfg = S.default_config(
+        serializer=rng.choice(['default', 'msgpack']),
+        async_handlers=rng.random() < 0.3, always_connect=False,
+        served=served, namespaces_opt=None,
+        style={ns: 'func' for ns in served}, global_catchall=False,
+        coroutines=rng.random() < 0.7, connect_script={}, returns={},
+        faults=[])
+    ns = rng.choice(served)
+    ops = [['open', 1], ['connect', 1, ns, None]]
+    for tok in range(1, rng.randint(2, 5)):
+        cb = rng.choice([True, 'co', 'raise', 'raise', 'raise_co'])
+        ops.append(['emit', tok, ['sid', 1, ns], None, ns, cb,
+                    {'t': tok}])
+        ops.append(['ack', 1, ns, tok, ['a', tok]])
+        if rng.random() < 0.7:
+            ops.append(['ack', 1, ns, tok, ['again', tok]])
+        if rng.random() < 0.3:
+            ops.append(['ack', 1, ns, rng.randint(1, tok), ['old']])
+    return cfg, ops
+
+
 def gen_server_script(rng):
     if rng.random() < 0.06:
         return departure_script(rng)
+    if rng.random() < 0.06:
+        return callback_script(rng)
     served = NAMESPACES[:rng.choice([1, 2, 3])]
     serializer = 'msgpack' if rng.random() < 0.25 else 'default'
     nopt = rng.choice([None, None, 'list', '*'])
